@@ -48,6 +48,7 @@ pub struct Profile {
     pub repeat_build: u64,
     pub post_balance_noise: u64,
     pub max_ops_scale: u64,
+    pub corrections: u64,
 }
 
 impl Profile {
@@ -84,6 +85,7 @@ impl Profile {
             repeat_build: 0,
             post_balance_noise: 50,
             max_ops_scale: 1,
+            corrections: 120,
         }
     }
 }
@@ -298,7 +300,7 @@ impl<'p> Gen<'p> {
         u
     }
 
-    fn next_red(&mut self) -> u32 {
+    pub fn next_red(&mut self) -> u32 {
         self.red += 1;
         self.red
     }
@@ -458,6 +460,26 @@ pub fn generate(seed: u64, tier: Tier, p: &Profile) -> Scenario {
                 Some(true) => DatumUse::Ref(u),
             };
             let wit = g.wit_plutus(s, du);
+            // sometimes the wallet first adds one of its own key UTxOs by mistake as an input of
+            // this script and then corrects itself (the second call replaces the first)
+            if pm(&mut g.r, p.corrections) {
+                let mut w2 = wit.clone();
+                w2.red = g.next_red();
+                w2.signers = None;
+                w2.datum = match &w2.datum {
+                    DatumUse::Ref(_) => DatumUse::None,
+                    d => d.clone(),
+                };
+                let kaddr = loop {
+                    let a = g.key_addr();
+                    if !matches!(a, AddrSpec::Byron(_)) {
+                        break a;
+                    }
+                };
+                let kcoin = g.min_ada(0) + g.amount() % 20_000_000;
+                let ku = g.new_utxo(kaddr, kcoin, vec![], None, None);
+                plan.pre.push(Op::InScriptThenRegular { utxo: ku, wit: w2 });
+            }
             plan.pre.push(Op::InScript { utxo: u, wit, by_utxo: g.r.chance(1, 2) });
             plan.uses_plutus = true;
             plan.langs |= 1 << (lang - 1);
